@@ -36,6 +36,9 @@ func C20Scenario() *Scenario {
 		w.InlineUnsyncedHooks = true
 		opts := &BootOptions{}
 		opts.Proc.Workers = 1 + t.Pick(2, "workers")
+		// (Seeded yield points - DESIGN 2.7 - are not used here: with a whole
+		// metacontroller process in the bubble, runs with yields stopped being repeatable,
+		// see DESIGN 13.)
 		StandardBoot(w, opts)
 		progs := Programs{}
 		w.HookProgram = progs.Answer
@@ -191,10 +194,56 @@ func C20Scenario() *Scenario {
 						watchesBeforeNoop = len(w.Reqs)
 						opName = "noop-update " + c.kind + "/" + c.name
 					default:
+						oldVer, wasRunning := c.ver, c.exists && c.startable
+						var held *HookRec
+						if wasRunning && t.Pick(3, "busy") == 2 {
+							// the spec changes while a sync of the running instance is in flight: its
+							// parents are poked and the webhook takes its time over one of the calls
+							for _, o := range w.Store.List(c.parentRes, "") {
+								EditObject(w, c.parentRes, mstr(o, "namespace"), mstr(o, "name"), "user", func(o Object) { setPath(o, fmt.Sprint(w.step), "metadata", "annotations", "busy") })
+							}
+							parkedOld := func() *HookRec {
+								for _, h := range w.PendingHooks() {
+									if h.Controller == c.name && h.Ver == fmt.Sprintf("v%d", oldVer) && (h.Kind == "sync" || h.Kind == "finalize") {
+										return h
+									}
+								}
+								return nil
+							}
+							holdAll := &Policy{Name: "hold-hooks", HoldHook: func(h *HookRec) bool { return true }}
+							for i := 0; i < 40 && parkedOld() == nil; i++ {
+								w.StepOnce(holdAll)
+							}
+							held = parkedOld()
+						}
 						mkSpec(c)
 						if c.exists {
 							EditObject(w, resOf(c), "", c.name, "config", func(o Object) { o["spec"] = c.spec["spec"] })
 							opName = fmt.Sprintf("update %s/%s to v%d (%s)", c.kind, c.name, c.ver, c.why)
+							if held != nil {
+								// the call stays unanswered until the successor has shown itself (it cannot:
+								// stopping the old instance waits for the sync in flight) or 30 steps passed
+								opName += " while a sync is in flight"
+								w.Probe("c20:spec-changed-while-a-sync-is-in-flight")
+								w.Proc.Reconcile(c.kind, c.name)
+								holdOne := &Policy{Name: "hold-one-hook", HoldHook: func(h *HookRec) bool { return h == held }}
+								newVer := fmt.Sprintf("v%d", c.ver)
+								for i := 0; i < 30; i++ {
+									seen := false
+									for _, h := range w.PendingHooks() {
+										if h.Controller == c.name && h.Ver == newVer {
+											seen = true
+										}
+									}
+									if seen {
+										break
+									}
+									w.StepOnce(holdOne)
+								}
+								opLog = append(opLog, fmt.Sprintf("%d %s", w.step, opName))
+								w.logf("config %s", opName)
+								return
+							}
 						} else {
 							mustCreate(w.Store, resOf(c), "", c.spec, "config")
 							c.exists = true
@@ -239,6 +288,55 @@ func C20Scenario() *Scenario {
 								}
 								return &Violation{Prop: "C20", Class: "stale-instance-still-syncing", Sig: s2,
 									Detail: fmt.Sprintf("%s: the customize hook of %s v%d was called although %s", where, h.Controller, v, what)}
+							}
+						}
+						// an instance is stopped completely before its successor starts: nothing is
+						// sent on behalf of version v once a hook call of a later version of the same
+						// controller has been made
+						firstOf := map[string]map[int]int{} // controller -> version -> arrival of its first sync/finalize call
+						for _, h := range w.Hooks {
+							if h.Kind != "sync" && h.Kind != "finalize" {
+								continue
+							}
+							v := 0
+							fmt.Sscanf(h.Ver, "v%d", &v)
+							if firstOf[h.Controller] == nil {
+								firstOf[h.Controller] = map[int]int{}
+							}
+							if a, ok := firstOf[h.Controller][v]; !ok || h.Arrival < a {
+								firstOf[h.Controller][v] = h.Arrival
+							}
+						}
+						for _, qn := range []string{"parent", "object"} {
+							for _, sy := range w.Syncs(qn) {
+								var hk *HookRec
+								for _, h := range sy.Hooks {
+									if h.Kind == "sync" || h.Kind == "finalize" {
+										hk = h
+									}
+								}
+								if hk == nil {
+									continue
+								}
+								v := 0
+								fmt.Sscanf(hk.Ver, "v%d", &v)
+								succ := 0
+								for v2, a := range firstOf[hk.Controller] {
+									if v2 > v && (succ == 0 || a < succ) {
+										succ = a
+									}
+								}
+								if succ == 0 {
+									continue
+								}
+								for _, q := range sy.Reqs {
+									if q.Arrival > succ && q.IsWrite() {
+										s2 := copySig(sig)
+										s2["overlap"] = "old-instance-writes-after-successor-started"
+										return &Violation{Prop: "C20", Class: "stale-instance-still-syncing", Sig: s2,
+											Detail: fmt.Sprintf("%s: %s was sent by a sync of %s v%d after a later version of that controller had made its first hook call", where, q.Short(), hk.Controller, v)}
+									}
+								}
 							}
 						}
 						// which instances answered the probe
@@ -326,7 +424,15 @@ func C20Scenario() *Scenario {
 							}
 						}
 						// an update that leaves the spec unchanged does nothing: no LIST/WATCH
-						if noop && watchesBeforeNoop >= 0 {
+						// (judged only when no controller object is around that cannot start: the
+						// reconciler keeps retrying those, and each attempt subscribes and lets go again)
+						retrying := false
+						for _, c := range ctls {
+							if c.exists && !c.startable {
+								retrying = true
+							}
+						}
+						if noop && watchesBeforeNoop >= 0 && !retrying {
 							for _, r := range w.Reqs[watchesBeforeNoop:] {
 								if (r.Verb == "list" || r.Verb == "watch") && r.ParkStep > opStep && r.ParkStep <= probeStep {
 									return &Violation{Prop: "C20", Class: "noop-update-restarted-informers", Sig: sig,
